@@ -9,7 +9,12 @@
                                                \/ (tg <> (gid_t)-1 /\ d_gid d = tg)
      ow_ok d           :=  mode bit 0002 set -> sticky
      dir_ok euid tg flags d := owner_ok /\ gw_ok /\ ow_ok
-   A chain lists the directories of the canonical path, leaf first, "/" last; any length. *)
+   A chain lists the directories of the canonical path, leaf first, "/" last; any length.
+   Identity: every predicate of the model takes the whole process identity id (real, effective, saved uid
+   and gid); the statements below are about i_euid id — which id each test in the source really consults
+   is observed on every run (GenPath *_owner_id), so a test that used the real uid would break them.
+   Directory entries: mko false None = nothing there, mko false (Some s) = a file, mko true (Some s) = a
+   symlink to a file, mko true None = a dangling symlink; s = (type, uid, gid, mode). *)
 From Coq Require Import List NArith Bool.
 From MV Require Import Bytes GenPath PathModel PathProofs.
 Import ListNotations.
@@ -44,13 +49,20 @@ Theorem C16_insecure_ancestor_any_depth : forall (euid tg flags : N) (pre : list
 Proof. exact insecure_ancestor. Qed.
 Print Assumptions C16_insecure_ancestor_any_depth.
 
+(* the walk as the process runs it consults the effective uid only *)
+Theorem C16_path_secure_effective_uid : forall (id : ident) (tg flags : N) (chain : list dstat),
+  path_secure_as id tg flags chain = Secure <-> Forall (dir_ok (i_euid id) tg flags) chain.
+Proof. exact path_secure_as_spec. Qed.
+Print Assumptions C16_path_secure_effective_uid.
+
 (* without --force the key is accepted exactly when it is a regular file, not reached through a symlink,
-   owned by euid, without group/other read or write permission (mode land 0066 = 0), in a secure directory *)
-Theorem C16_keyfile_spec : forall (euid tg : N) (o : fobs) (chain : list dstat),
-  keyfile_check false euid tg o chain = None <->
-  (exists s, o_stat o = Some s /\ f_type s = TReg /\ o_symlink o = false /\ f_uid s = euid /\
+   owned by the EFFECTIVE uid, without group/other read or write permission (mode land 0066 = 0), in a
+   secure directory — whatever the real and saved ids are *)
+Theorem C16_keyfile_spec : forall (id : ident) (tg : N) (o : fobs) (chain : list dstat),
+  keyfile_check false id tg o chain = None <->
+  (exists s, o_stat o = Some s /\ f_type s = TReg /\ o_symlink o = false /\ f_uid s = i_euid id /\
              N.land (f_mode s) 54 = 0) /\
-  Forall (dir_ok euid tg 0) chain.
+  Forall (dir_ok (i_euid id) tg 0) chain.
 Proof. exact keyfile_spec. Qed.
 Print Assumptions C16_keyfile_spec.
 
@@ -59,8 +71,9 @@ Print Assumptions C16_keyfile_spec.
    directory stops the daemon and the seed is neither read nor removed.  sr_hang: the start blocks in
    open() — exactly when the seed is a FIFO and the source opens it without O_NONBLOCK (GenPath's
    seed_open_nonblock, observed on every run) *)
-Theorem C16_seed_spec : forall (force : bool) (euid tg : N) (o : fobs) (chain : list dstat),
-  let r := seed_step force euid tg o chain in
+Theorem C16_seed_spec : forall (force : bool) (id : ident) (tg : N) (o : fobs) (chain : list dstat),
+  let r := seed_step force id tg o chain in
+  let euid := i_euid id in
   (sr_used r = true -> seed_acceptable euid o) /\
   (sr_refuse r = None -> sr_hang r = false -> seed_present o -> ~ seed_acceptable euid o ->
      sr_used r = false /\ (~ seed_is_dir o -> sr_removed r = true)) /\
@@ -84,16 +97,16 @@ Theorem C16_seed_fifo_outcome :
 Proof. split; [reflexivity|exact seed_fifo_outcome]. Qed.
 Print Assumptions C16_seed_fifo_outcome.
 
-(* log file (daemon mode): an existing one must be a regular non-symlink file of euid, not group- or
-   world-writable; its directories may be group-writable *)
-Theorem C16_logfile_spec : forall (euid tg : N) (o : fobs) (chain : list dstat),
-  logfile_check false euid tg o chain = None <->
-  log_ok euid o /\ Forall (fun d => owner_ok euid d /\ ow_ok d) chain.
+(* log file (daemon mode): an existing one must be a regular non-symlink file of the effective uid, not
+   group- or world-writable; its directories may be group-writable *)
+Theorem C16_logfile_spec : forall (id : ident) (tg : N) (o : fobs) (chain : list dstat),
+  logfile_check false id tg o chain = None <->
+  log_ok (i_euid id) o /\ Forall (fun d => owner_ok (i_euid id) d /\ ow_ok d) chain.
 Proof. exact logfile_spec. Qed.
 Print Assumptions C16_logfile_spec.
 
-(* every inherited umask 000-777, foreground and daemon mode: socket 0777, lock 0200,
-   pid within 0644, log within 0640, seed within 0600 *)
+(* every inherited umask 000-777, foreground and daemon mode, nothing at the names beforehand:
+   socket 0777, lock 0200, pid within 0644, log within 0640, seed within 0600 *)
 Theorem C16_modes_for_all_umasks : forall (fg : bool) (u : N), u < 512 ->
   created (sock_recipe fg) u = 511 /\ created (lock_recipe fg) u = 128 /\
   within (created (pid_recipe fg) u) 420 = true /\ within (created log_recipe u) 416 = true /\
@@ -101,43 +114,161 @@ Theorem C16_modes_for_all_umasks : forall (fg : bool) (u : N), u < 512 ->
 Proof. exact modes_for_all_umasks. Qed.
 Print Assumptions C16_modes_for_all_umasks.
 
+(* ... and WHATEVER is at the name beforehand (e ranges over: nothing; a file of any type, owner and mode;
+   a symlink to any such file; a dangling symlink), any identity, any umask:
+   the pid is written to a brand-new regular file (not reached through a symlink) owned by the effective
+   uid and gid with no permission outside 0644; only a directory in the way leaves no pid file, and then
+   nothing is touched.  The write never blocks. *)
+Theorem C16_pid_any_prior : forall (fg : bool) (id : ident) (u : N) (e : fobs), u < 512 ->
+  let r := pid_write fg id u e in
+  w_hang r = false /\
+  match w_file r with
+  | Some s => w_entry r = mko false (Some s) /\ f_type s = TReg /\ f_uid s = i_euid id /\
+              f_gid s = i_egid id /\ within (f_mode s) 420 = true
+  | None => entry_is_dir e /\ w_entry r = e
+  end.
+Proof. exact pid_any_prior. Qed.
+Print Assumptions C16_pid_any_prior.
+
+(* the same for the seed written at exit, within 0600 *)
+Theorem C16_seed_written_any_prior : forall (fg : bool) (id : ident) (u : N) (e : fobs), u < 512 ->
+  let r := seed_write fg id u e in
+  w_hang r = false /\
+  match w_file r with
+  | Some s => w_entry r = mko false (Some s) /\ f_type s = TReg /\ f_uid s = i_euid id /\
+              f_gid s = i_egid id /\ within (f_mode s) 384 = true
+  | None => entry_is_dir e /\ w_entry r = e
+  end.
+Proof. exact seed_write_any_prior. Qed.
+Print Assumptions C16_seed_written_any_prior.
+
+(* the socket is a brand-new socket of the effective uid with mode exactly 0777, or the daemon dies
+   (only when a directory is in the way) *)
+Theorem C16_socket_any_prior : forall (fg : bool) (id : ident) (u : N) (e : fobs), u < 512 ->
+  match sock_bind fg id u e with
+  | Some e' => e' = mko false (Some (mkf TSock (i_euid id) (i_egid id) 511))
+  | None => entry_is_dir e
+  end.
+Proof. exact sock_any_prior. Qed.
+Print Assumptions C16_socket_any_prior.
+
+(* the lock: whenever the daemon carries on holding a lock, the locked file (what stat reports at the name)
+   is a regular file of mode exactly 0200 owned by the effective uid; it carries on without one only
+   under --force; under --force the lock file is brand-new; on a clean slate it is created 0200 *)
+Theorem C16_lock_any_prior : forall (fg force : bool) (id : ident) (u : N) (e : fobs),
+  match lock_step fg force id u e with
+  | LLocked e' s => o_stat e' = Some s /\ f_type s = TReg /\ f_mode s = 128 /\ f_uid s = i_euid id /\
+                    (force = true -> e' = mko false (Some s) /\ f_gid s = i_egid id)
+  | LNoLock _ => force = true
+  | LRefuse _ | LHang => True
+  end.
+Proof. exact lock_any_prior. Qed.
+Print Assumptions C16_lock_any_prior.
+
+Theorem C16_lock_fresh : forall (fg force : bool) (id : ident) (u : N), u < 512 ->
+  lock_step fg force id u (mko false None) =
+  LLocked (mko false (Some (mkf TReg (i_euid id) (i_egid id) 128))) (mkf TReg (i_euid id) (i_egid id) 128).
+Proof. exact lock_fresh. Qed.
+Print Assumptions C16_lock_fresh.
+
+(* the log (daemon mode, no --force): the file opened is regular, reached without a symlink, owned by the
+   effective uid and not group-/world-writable; when nothing was there it is new and within 0640; the open
+   can only fail on a file the process may not write, and never blocks *)
+Theorem C16_log_any_prior : forall (id : ident) (tg u : N) (o : fobs) (chain : list dstat), u < 512 ->
+  logfile_check false id tg o chain = None ->
+  match log_open id u o with
+  | OOpened e' s => o_symlink e' = false /\ o_stat e' = Some s /\ f_type s = TReg /\ f_uid s = i_euid id /\
+                    N.testbit (f_mode s) 4 = false /\ N.testbit (f_mode s) 1 = false /\
+                    (o_stat o = None -> f_gid s = i_egid id /\ within (f_mode s) 416 = true)
+  | OFail => exists s, o_stat o = Some s /\ may_write id s = false
+  | OBlock => False
+  end.
+Proof. exact log_any_prior. Qed.
+Print Assumptions C16_log_any_prior.
+
 (* the whole start-up in the order of main(): without --force a start implies all of the above for the
-   key and for the directories of all five files, and the lock file is exactly 0200 *)
+   key and for the directories of all five files — with respect to the effective uid — and the lock file
+   is a regular file of mode exactly 0200 owned by the effective uid *)
 Theorem C16_startup_refuses : forall c : config, c_force c = false -> startup c = None ->
-  key_ok (c_euid c) (c_key c) /\
-  Forall (dir_ok (c_euid c) (c_tg c) 0) (c_keydir c) /\
-  Forall (dir_ok (c_euid c) (c_tg c) 0) (c_seeddir c) /\
-  Forall (dir_ok (c_euid c) (c_tg c) 0) (c_sockdir c) /\
-  Forall (dir_ok (c_euid c) (c_tg c) 0) (c_piddir c) /\
-  (c_fg c = false -> log_ok (c_euid c) (c_log c) /\
-                     Forall (fun d => owner_ok (c_euid c) d /\ ow_ok d) (c_logdir c)) /\
-  m_lock (created_modes c) = 128.
+  let euid := i_euid (c_id c) in
+  key_ok euid (c_key c) /\
+  Forall (dir_ok euid (c_tg c) 0) (c_keydir c) /\
+  Forall (dir_ok euid (c_tg c) 0) (c_seeddir c) /\
+  Forall (dir_ok euid (c_tg c) 0) (c_sockdir c) /\
+  Forall (dir_ok euid (c_tg c) 0) (c_piddir c) /\
+  (c_fg c = false -> log_ok euid (c_log c) /\
+                     Forall (fun d => owner_ok euid d /\ ow_ok d) (c_logdir c)) /\
+  exists e' s, lock_of c = LLocked e' s /\ o_stat e' = Some s /\ f_type s = TReg /\ f_mode s = 128 /\
+               f_uid s = i_euid (c_id c).
 Proof. exact startup_refuses. Qed.
 Print Assumptions C16_startup_refuses.
 
-Theorem C16_started_modes : forall c : config, c_umask c < 512 -> startup c = None ->
-  let m := created_modes c in
-  m_sock m = 511 /\ m_lock m = 128 /\ within (m_pid m) 420 = true /\ within (m_seed m) 384 = true /\
-  (c_fg c = false -> o_stat (c_log c) = None -> exists x, m_log m = Some x /\ within x 416 = true).
-Proof. exact started_modes. Qed.
-Print Assumptions C16_started_modes.
+(* a successful start (forced or not) with ANY prior state of the socket, lock, pid, log and seed names:
+   what the five names hold afterwards *)
+Theorem C16_started_files : forall c : config, c_umask c < 512 -> startup c = None ->
+  let id := c_id c in let a := after_start c in
+  a_sock a = mko false (Some (mkf TSock (i_euid id) (i_egid id) 511)) /\
+  match lock_of c with
+  | LLocked e' s => a_lock a = e' /\ o_stat e' = Some s /\ f_type s = TReg /\ f_mode s = 128 /\ f_uid s = i_euid id
+  | LNoLock _ => c_force c = true
+  | _ => False
+  end /\
+  match w_file (pid_of c) with
+  | Some s => a_pid a = mko false (Some s) /\ f_type s = TReg /\ f_uid s = i_euid id /\
+              f_gid s = i_egid id /\ within (f_mode s) 420 = true
+  | None => entry_is_dir (c_pid c) /\ a_pid a = c_pid c
+  end /\
+  match w_file (seed_written c) with
+  | Some s => seed_after c = mko false (Some s) /\ f_type s = TReg /\ f_uid s = i_euid id /\
+              f_gid s = i_egid id /\ within (f_mode s) 384 = true
+  | None => sr_keep (seed_of c) = true -> entry_is_dir (seed_at_exit c) /\ seed_after c = seed_at_exit c
+  end /\
+  (c_fg c = false -> c_force c = false ->
+   exists e' s, a_log a = Some e' /\ o_symlink e' = false /\ o_stat e' = Some s /\ f_type s = TReg /\
+                f_uid s = i_euid id /\ N.testbit (f_mode s) 4 = false /\ N.testbit (f_mode s) 1 = false /\
+                (o_stat (c_log c) = None -> within (f_mode s) 416 = true)).
+Proof. exact started_files. Qed.
+Print Assumptions C16_started_files.
+
+(* only the effective uid (and, for the group of new files, the effective gid) matters: two processes that
+   differ in real and saved ids only are treated alike at every step *)
+Theorem C16_identity_only_effective : forall (c : config) (id : ident),
+  i_euid id = i_euid (c_id c) -> i_egid id = i_egid (c_id c) ->
+  startup (set_id c id) = startup c /\ after_start (set_id c id) = after_start c /\
+  seed_of (set_id c id) = seed_of c /\ seed_after (set_id c id) = seed_after c.
+Proof. exact identity_only_effective. Qed.
+Print Assumptions C16_identity_only_effective.
 
 (* observation (not a clause about created files): a log file that already exists keeps its mode, and
    its group/other read bits are not examined — an existing 0644 log is accepted and stays 0644 *)
 Theorem C16_existing_log_keeps_mode :
   c_force log_0644_config = false /\ startup log_0644_config = None /\
-  m_log (created_modes log_0644_config) = Some 420 /\ within 420 416 = false.
+  a_log (after_start log_0644_config) = Some (mko false (Some (mkf TReg 0 0 420))) /\ within 420 416 = false.
 Proof. split; [reflexivity|exact existing_log_keeps_mode]. Qed.
 Print Assumptions C16_existing_log_keeps_mode.
 
-(* non-vacuity: a configuration that starts (trusted group 7 owns a group-writable ancestor of the key),
-   and the same configuration without the trusted group is refused at the key's second directory *)
+(* observation: a FIFO in the lock file's place blocks the start in open(O_WRONLY) (no O_NONBLOCK) *)
+Theorem C16_lock_fifo_blocks :
+  c_force fifo_lock_config = false /\ startup fifo_lock_config = Some (SLock, WHang).
+Proof. split; [reflexivity|exact lock_fifo_outcome]. Qed.
+Print Assumptions C16_lock_fifo_blocks.
+
+(* non-vacuity: a configuration that starts (real uid 0, effective uid 1000; trusted group 7 owns a
+   group-writable ancestor of the key; a stale world-writable pid file of somebody else, a symlink at the
+   socket name), the same configuration without the trusted group is refused at the key's second directory,
+   and the same with real and effective uid swapped is refused for the key's owner *)
 Example C16_starts_example :
   let gwdir := mkd 0 7 509 in   (* 0775, gid 7 *)
-  let c tg := mkc true false 1000 tg 63
+  let c id tg := mkc true false id tg 63
       (mko false (Some (mkf TReg 1000 1000 256))) [mkd 1000 1000 448; gwdir; clean_dir]
       (mko false (Some (mkf TReg 1000 1000 420))) [clean_dir]
-      (mko false None) [clean_dir] [clean_dir] None [clean_dir] in
-  startup (c 7) = None /\ startup (c no_trusted) = Some (SKey, WDir 1 RGroupW) /\
-  sr_used (seed_of (c 7)) = false /\ sr_removed (seed_of (c 7)) = true.
+      (mko false None) [clean_dir]
+      (mko true None) [clean_dir] (mko false None)
+      (mko false (Some (mkf TReg 5151 0 438))) [clean_dir] in
+  let id := mkid 0 1000 0 0 1000 0 in
+  startup (c id 7) = None /\ startup (c id no_trusted) = Some (SKey, WDir 1 RGroupW) /\
+  startup (c (mkid 1000 0 0 0 0 0) 7) = Some (SKey, WOwner) /\
+  sr_used (seed_of (c id 7)) = false /\ sr_removed (seed_of (c id 7)) = true /\
+  a_pid (after_start (c id 7)) = mko false (Some (mkf TReg 1000 1000 384)) /\
+  a_sock (after_start (c id 7)) = mko false (Some (mkf TSock 1000 1000 511)).
 Proof. vm_compute. repeat split. Qed.
